@@ -763,64 +763,106 @@ func nodeUsesOf(v ssa.Value, seen map[ssa.Value]bool, depth int) []ssa.Instructi
 
 func c07Decl(w *World, cf *ctxFacts, r *Result) {
 	rule := "R-C07-decl"
-	for _, fn := range w.Funcs("parser") {
-		// declaration calls: NewVariable(name, …) with a name that is not a constant
-		var decls []*ssa.Call
-		for _, b := range fn.Blocks {
-			for _, ins := range b.Instrs {
-				c, ok := ins.(*ssa.Call)
-				if !ok {
-					continue
-				}
-				if callee := c.Call.StaticCallee(); callee != nil && isDefinitionCtor(callee, "Variable") && len(c.Call.Args) >= 1 {
-					decls = append(decls, c)
-				}
+	// helpers that build the variables of a definition for their caller are judged together
+	// with the caller: its newness tests precede the call
+	type declFacts struct {
+		decls   []*ssa.Call
+		newness int
+		blocks  []*ssa.BasicBlock
+	}
+	facts := func(fn *ssa.Function) declFacts {
+		var df declFacts
+		for _, f := range helperClosure(w, fn, 2) {
+			if f != fn && returnsNode(f) {
+				continue
 			}
-		}
-		declaresFunc := constructsNode(fn, "FunctionDefinition")
-		if len(decls) == 0 && !declaresFunc {
-			continue
-		}
-		// newness tests in this function: lookups (or helper wrapping a lookup) whose found-branch is an error exit
-		newness := 0
-		for _, b := range fn.Blocks {
-			for _, ins := range b.Instrs {
-				c, ok := ins.(*ssa.Call)
-				if !ok {
-					continue
-				}
-				callee := c.Call.StaticCallee()
-				if callee == nil {
-					continue
-				}
-				if wrapsLookup(cf, callee) {
-					newness++
-				}
-				if cf.lookups[callee] {
-					// found == true must lead to an error exit
-					for _, ref := range *c.Referrers() {
-						ex, ok := ref.(*ssa.Extract)
-						if !ok || ex.Index != 1 {
-							continue
-						}
-						for _, blk := range fn.Blocks {
-							cnd, neg := condOf(blk)
-							if cnd != ex {
+			helperBuilds := f == fn || returnsVariables(f)
+			df.blocks = append(df.blocks, f.Blocks...)
+			for _, b := range f.Blocks {
+				for _, ins := range b.Instrs {
+					c, ok := ins.(*ssa.Call)
+					if !ok {
+						continue
+					}
+					callee := c.Call.StaticCallee()
+					if callee == nil {
+						continue
+					}
+					// declaration calls: NewVariable(name, …) with a name that is not a constant
+					if helperBuilds && isDefinitionCtor(callee, "Variable") && len(c.Call.Args) >= 1 {
+						df.decls = append(df.decls, c)
+					}
+					// newness tests: lookups (or helper wrapping a lookup) whose found-branch is an error exit
+					if wrapsLookup(cf, callee) {
+						df.newness++
+					}
+					if cf.lookups[callee] {
+						// found == true must lead to an error exit
+						for _, ref := range *c.Referrers() {
+							ex, ok := ref.(*ssa.Extract)
+							if !ok || ex.Index != 1 {
 								continue
 							}
-							idx := 0
-							if neg {
-								idx = 1
-							}
-							if leadsToErrorReturn(blk.Succs[idx], 0) {
-								newness++
+							for _, blk := range f.Blocks {
+								cnd, neg := condOf(blk)
+								if cnd != ex {
+									continue
+								}
+								idx := 0
+								if neg {
+									idx = 1
+								}
+								if leadsToErrorReturn(blk.Succs[idx], 0) {
+									df.newness++
+								}
 							}
 						}
 					}
 				}
 			}
 		}
-		loops := naturalLoops(fn)
+		return df
+	}
+	for _, fn := range w.Funcs("parser") {
+		df := facts(fn)
+		decls, newness := df.decls, df.newness
+		declaresFunc := constructsNode(fn, "FunctionDefinition")
+		if len(decls) == 0 && !declaresFunc {
+			continue
+		}
+		if newness == 0 && !returnsNode(fn) && returnsVariables(fn) && !addsToContext(cf, fn) {
+			// judged with its callers when each of them tests newness
+			callers, all := 0, true
+			for _, caller := range w.Funcs("parser") {
+				calls := false
+				for _, b := range caller.Blocks {
+					for _, ins := range b.Instrs {
+						if c, ok := ins.(*ssa.Call); ok && c.Call.StaticCallee() == fn {
+							calls = true
+						}
+					}
+				}
+				if calls {
+					callers++
+					if facts(caller).newness == 0 {
+						all = false
+					}
+				}
+			}
+			if callers > 0 && all {
+				continue
+			}
+		}
+		loops := map[*ssa.BasicBlock]*ssa.BasicBlock{}
+		for _, f := range helperClosure(w, fn, 2) {
+			if f != fn && returnsNode(f) {
+				continue
+			}
+			for k, v := range naturalLoops(f) {
+				loops[k] = v
+			}
+		}
+		allBlocks := df.blocks
 		// is a declaration a pure reference (existing variable rebuilt)? those are judged by R-C02-ident
 		userDecls := 0
 		inLoop := false
@@ -881,8 +923,18 @@ func c07Decl(w *World, cf *ctxFacts, r *Result) {
 		_ = loopHdr
 		if inLoop {
 			// membership test of the new name in the names/definitions collected so far (loop-carried list), anywhere in the function
-			for _, b := range fn.Blocks {
+			for _, b := range allBlocks {
 				for _, ins := range b.Instrs {
+					// the set form: seen[name] consulted and seen[name] = true in a loop over the names
+					if lk, ok := ins.(*ssa.Lookup); ok && loops[b] != nil && isTokenName(lk.Index) {
+						if _, isMap := lk.X.Type().Underlying().(*types.Map); isMap && lk.X.Referrers() != nil {
+							for _, ref := range *lk.X.Referrers() {
+								if mu, ok := ref.(*ssa.MapUpdate); ok && mu.Map == lk.X && sameNameValue(mu.Key, lk.Index) && loops[mu.Block()] == loops[b] {
+									selfChecked = true
+								}
+							}
+						}
+					}
 					c, ok := ins.(*ssa.Call)
 					if !ok {
 						continue
@@ -900,7 +952,7 @@ func c07Decl(w *World, cf *ctxFacts, r *Result) {
 			}
 		} else {
 			// two names outside a loop (range index/value): compared with each other
-			for _, b := range fn.Blocks {
+			for _, b := range allBlocks {
 				for _, ins := range b.Instrs {
 					if bo, ok := ins.(*ssa.BinOp); ok && (bo.Op == token.EQL || bo.Op == token.NEQ) && isString(bo.X.Type()) {
 						if isTokenName(bo.X) && isTokenName(bo.Y) {
